@@ -321,6 +321,7 @@ def switches : List Sw :=
     { id := "C23-F5", set := fun d => { d with inDropsNonEqCorr := true }, applies := fun m si => isJoin m && m.kind == "in" && si.corr.any (fun p => p.op != .eq) },
     { id := "C23-F6", set := fun d => { d with inDropsProjectedCorr := true }, applies := fun m si => isJoin m && m.kind == "in" && !si.corr.isEmpty },
     { id := "C23-F7", set := fun d => { d with scalarCountBug := true }, applies := fun m si => isJoin m && m.kind == "scalar_agg" && si.correlated },
+    { id := "C23-F13", set := fun d => { d with inSubqueryTypesLimited := true }, applies := fun m _ => !isJoin m && m.kind == "in" },
     { id := "C23-F12", set := fun d => { d with scalarReductionDup := true }, applies := fun m si => isJoin m && m.kind == "scalar_agg" && si.correlated },
     { id := "C23-F8", set := fun d => { d with corrErrorsSwallowed := true }, applies := fun m si => !isJoin m && si.correlated && (m.kind == "scalar_row" || m.kind == "scalar_agg" || m.kind == "exists") },
     { id := "C23-F9", set := fun d => { d with scalarFirstBatchOnly := true }, applies := fun m si => !isJoin m && m.kind == "scalar_row" && m.layout != "mem1" && si.agg.isNone },
@@ -338,6 +339,7 @@ def sameOutcome (o : Outcome) (mres : Except Err Table) : Bool :=
   match o, mres with
   | .ok out, .ok t => bagEq out (normTable t)
   | .err _, .error (.card _) => true
+  | .err _, .error (.unsupported _) => true
   | _, _ => false
 
 /-- C23-F11: a correlated IN subquery that is evaluated row by row (under OR, in the SELECT list, or with the decorrelation
